@@ -106,4 +106,184 @@ def renderCsv (iter : List Entry) (yielded : Option Entry) : Str :=
   headerOf (match yielded with | some e => e.vars | none => []) ++ ['\n'] ++
     ((sortedRows iter).map fun e => rowOf e ++ ['\n']).flatten
 
+/-! ## additions of the audit round (rows, JSON) -/
+
+deriving instance DecidableEq for Row
+
+/-! ## the JSON summary
+
+Transcribed from
+  internal/pkg/annealing/solution/set/encoding/json/Marshaler.go   Marshal, deriveSolutionSummaries, SolutionSummaries
+  internal/pkg/annealing/solution/Summary.go                       Summary, VariableSummary (field names, order, tags)
+
+`Marshal` hands `SolutionSummaries{SolutionSet: deriveSetNameFor(summary), Solutions: summary.AsSortedArray()}`
+to `json.MarshalIndent(·, "", "  ")` and the encoder writes the bytes unchanged.  The CONTENT of that value is
+modelled exactly (`JsonSummary`, `jsonOf`, `marshalJson`): which fields exist, in which order, with which
+values.  `Summary.SortIndex` carries the tag `json:"-"` and the map key is not part of the value, so neither
+is in the document; no field has `omitempty`; `Summarise()` copies `variable.Value` as it is (NO rounding,
+unlike the CSV marshaler's `%.3f`).
+
+Turning the value into bytes is `encoding/json`'s business.  Its LAYOUT (member names, order, the two-blank
+indentation, `[]` / `null`) and its string escaping are transcribed below (`renderJsonWith`, `jsonString`);
+its float64 formatting (the shortest decimal that parses back to the same float64, `e`-notation outside
+[1e-6, 1e21)) is NOT modelled - values are rationals here - and is an explicit parameter `num`.
+`jsonNumGrid3` is the instance that is right for values on the 10^-3 grid of at most 15 significant digits
+(what the catchment model's variables hold).  The `saved-runs` suite validates the JSON files by parsing them
+back and comparing content, not bytes. -/
+
+/-- one element of `Solutions`: the marshalled fields of `solution.Summary`, in declaration order -/
+structure JsonSolution where
+  id : Str                         -- `"Id"`: the label
+  variables : List (Str × Rat)     -- `"Variables"`: objects `{"Name": …, "Value": …}`
+  actions : Str                    -- `"Actions"`
+  note : Str                       -- `"Note"`
+  deriving Repr, DecidableEq
+
+/-- `SolutionSummaries` -/
+structure JsonSummary where
+  solutionSet : Str                -- `"SolutionSet"`
+  solutions : List JsonSolution    -- `"Solutions"`
+  deriving Repr, DecidableEq
+
+def jsonSolutionOf (e : Entry) : JsonSolution :=
+  { id := e.label, variables := e.vars, actions := e.actions, note := e.note }
+
+/-- `deriveSolutionSummaries` once the set name is known: `iter` = order of map iteration in `AsSortedArray` -/
+def jsonOf (setName : Str) (iter : List Entry) : JsonSummary :=
+  { solutionSet := setName, solutions := (sortedRows iter).map jsonSolutionOf }
+
+/-- `deriveSolutionSummaries`: `firstKey` = the key `getFirstKey` got from its own iteration of the map
+(`none` for an empty map: Go then uses `""`); the result `none` = the index panic of `deriveSetNameFor` -/
+def marshalJson (iter : List Entry) (firstKey : Option Str) : Option JsonSummary :=
+  (jsonSetNameOfKey (firstKey.getD [])).map fun n => jsonOf n iter
+
+/-- `strings.Join(xs, sep)` -/
+def joinStr (sep : Str) : List Str → Str
+  | [] => []
+  | [x] => x
+  | x :: xs => x ++ sep ++ joinStr sep xs
+
+def lowerHex (d : Nat) : Char := if d < 10 then Char.ofNat (48 + d) else Char.ofNat (87 + d)
+
+/-- `\u` and four lower-case hex digits -/
+def jsonU (n : Nat) : Str :=
+  ['\\', 'u', lowerHex (n / 4096 % 16), lowerHex (n / 256 % 16), lowerHex (n / 16 % 16), lowerHex (n % 16)]
+
+/-- one character of `encoding/json`'s `appendString` with HTML escaping on (the default of `MarshalIndent`;
+go1.22 and later: `\b` and `\f` have short forms).  A Go string that is not valid UTF-8 has no `Str` image. -/
+def jsonChar (c : Char) : Str :=
+  let n := c.toNat
+  if n = 34 then ['\\', '"']                 -- `"`
+  else if n = 92 then ['\\', '\\']             -- `\`
+  else if n = 10 then ['\\', 'n']
+  else if n = 13 then ['\\', 'r']
+  else if n = 9 then ['\\', 't']
+  else if n = 8 then ['\\', 'b']
+  else if n = 12 then ['\\', 'f']
+  -- other control characters, `<`, `>`, `&`, U+2028, U+2029
+  else if n < 32 ∨ n = 60 ∨ n = 62 ∨ n = 38 ∨ n = 0x2028 ∨ n = 0x2029 then jsonU n
+  else [c]
+
+/-- a JSON string literal -/
+def jsonString (s : Str) : Str := '"' :: s.flatMap jsonChar ++ ['"']
+
+/-- `depth` levels of the indent `"  "` -/
+def jsonIndent (depth : Nat) : Str := List.replicate (2 * depth) ' '
+
+/-- an array whose opening bracket stands on a line of depth `depth`; `[]` when empty -/
+def jsonArray (depth : Nat) (items : List Str) : Str :=
+  if items.isEmpty then ['[', ']']
+  else ['[', '\n'] ++ joinStr [',', '\n'] (items.map (jsonIndent (depth + 1) ++ ·)) ++ ['\n'] ++
+    jsonIndent depth ++ [']']
+
+/-- an object (of at least one member) whose opening brace stands on a line of depth `depth` -/
+def jsonObject (depth : Nat) (members : List (Str × Str)) : Str :=
+  ['{', '\n'] ++
+    joinStr [',', '\n'] (members.map fun m => jsonIndent (depth + 1) ++ jsonString m.1 ++ [':', ' '] ++ m.2) ++
+    ['\n'] ++ jsonIndent depth ++ ['}']
+
+/-! member names (explicit character lists: they reduce in the kernel) -/
+def jSolutionSet : Str := ['S', 'o', 'l', 'u', 't', 'i', 'o', 'n', 'S', 'e', 't']
+def jSolutions : Str := ['S', 'o', 'l', 'u', 't', 'i', 'o', 'n', 's']
+def jId : Str := ['I', 'd']
+def jVariables : Str := ['V', 'a', 'r', 'i', 'a', 'b', 'l', 'e', 's']
+def jActions : Str := ['A', 'c', 't', 'i', 'o', 'n', 's']
+def jNote : Str := ['N', 'o', 't', 'e']
+def jName : Str := ['N', 'a', 'm', 'e']
+def jValue : Str := ['V', 'a', 'l', 'u', 'e']
+def jNull : Str := ['n', 'u', 'l', 'l']
+
+/-- `json.MarshalIndent(doc, "", "  ")` given the renderings of strings and of float64 values.
+`AsSortedArray` of an empty map is a nil slice (`null`); `produceVariableSummary` makes an empty, non-nil one (`[]`). -/
+def renderJsonWith (str : Str → Str) (num : Rat → Str) (doc : JsonSummary) : Str :=
+  jsonObject 0
+    [(jSolutionSet, str doc.solutionSet),
+     (jSolutions,
+        if doc.solutions.isEmpty then jNull
+        else jsonArray 1 (doc.solutions.map fun s =>
+          jsonObject 2
+            [(jId, str s.id),
+             (jVariables, jsonArray 3 (s.variables.map fun nv =>
+                jsonObject 4 [(jName, str nv.1), (jValue, num nv.2)])),
+             (jActions, str s.actions),
+             (jNote, str s.note)]))]
+
+/-- drop trailing `0`s -/
+def dropTrailingZeros (s : Str) : Str := (s.reverse.dropWhile (· = '0')).reverse
+
+/-- `encoding/json`'s rendering of the float64 nearest to a value ON THE 10^-3 GRID with at most 15 significant
+digits (then the shortest decimal that round-trips is the grid number's own decimal expansion, in plain
+notation since 0.001 ≤ |x| < 1e21 or x = 0): sign, integer part, and the fraction without trailing zeros.
+Off the grid this is the rendering of `RoundFloat(x, 3)`, not of `x`. -/
+def jsonNumGrid3 (x : Rat) : Str :=
+  let k := roundHA (x * ((1000 : Nat) : Rat))
+  let a := k.natAbs
+  let frac := dropTrailingZeros (padLeft 3 '0' (natStr (a % 1000)))
+  (if k < 0 then ['-'] else []) ++ natStr (a / 1000) ++ (if frac.isEmpty then [] else '.' :: frac)
+
+/-- the bytes of the JSON summary file, for grid-valued variables -/
+def renderJson (setName : Str) (iter : List Entry) : Str :=
+  renderJsonWith jsonString jsonNumGrid3 (jsonOf setName iter)
+
+/-! ## `Saver.ObserveEvent`: which summaries one event makes the Saver write
+
+Transcribed from internal/pkg/scenario/Saver.go `ObserveEvent`, `saveOptimisedModel` / `encodeOptimisedModel`,
+`saveSolutionSet` / `encodeSolutionSet`, `encodeSummary`, and `Encoder.deriveOutputPath`.  An annealer attaches ONE of
+the two attributes to its `FinishedAnnealing` event (Kirkpatrick family: `CompressedModel`; Suppapitnarm family:
+`ModelArchive`); the Saver tests them independently, so an event carrying both is saved twice (into the same file:
+the second write replaces the first).  The file name comes from `Summary.FileNameSafeId()`, i.e. from whichever key
+the summary map yields: `pick` is that choice. -/
+
+/-- what the Saver reads off one event: the rows are what decompression + re-evaluation yield (see
+`written_rows_faithful` for where they come from) -/
+structure SaverEvent where
+  /-- `event.EventType == observer.FinishedAnnealing` -/
+  finished : Bool
+  /-- the `CompressedModel` attribute: (id, as-is row, the optimised solution's row) -/
+  compressed : Option (Str × Row × Row)
+  /-- the `ModelArchive` attribute: (id, as-is row, one row per archive member in archive order) -/
+  archive : Option (Str × Row × List Row)
+
+/-- one summary file written: its base name and the summary map it was rendered from -/
+structure SummaryWrite where
+  file : Str
+  entries : List Entry
+
+/-- `encodeSummary`: the map is written under the name derived from the key `pick` yields (`""` for an empty map) -/
+def writeSummary (v : Variant) (ot : OutputType) (pick : List Entry → Option Entry) (m : List Entry) : SummaryWrite :=
+  { file := summaryFileNameV v ot (match pick m with | some e => e.key | none => []), entries := m }
+
+/-- `Saver.ObserveEvent` as far as summary files go, in the order of the writes -/
+def observeEvent (v : Variant) (ot : OutputType) (pick : List Entry → Option Entry) (e : SaverEvent) :
+    List SummaryWrite :=
+  if !e.finished then []
+  else
+    (match e.compressed with
+     | some (id, asIs, opt) => [writeSummary v ot pick (buildSummary v .single id asIs [opt])]
+     | none => []) ++
+    (match e.archive with
+     | some (id, asIs, members) => [writeSummary v ot pick (buildSummary v .multi id asIs members)]
+     | none => [])
+
+
 end Crem.SummaryCsv
